@@ -51,13 +51,15 @@ GEN_MODELS = {
     'gen:logit_shared': ('ADVAN1 TRANS2', ['TVCL = THETA(1)*(WGT/70)**THETA(3)', 'CL = TVCL*EXP(ETA(1))',
                                            'V = THETA(2)*EXP(ETA(2) + 0.5*ETA(1))',
                                            'F1 = EXP(THETA(4)+ETA(1))/(1+EXP(THETA(4)+ETA(1)))', 'S1 = V'], False),
+    # a rate constant defined through a chain of aliases
+    'gen:alias_chain': ('ADVAN1 TRANS1', ['TVK = THETA(1)', 'KK = TVK', 'K = KK', 'V = THETA(2)*EXP(ETA(2))', 'S1 = V'], False),
     # a parameter of the ODE system is assigned again after the ODE system
     'gen:reassign_after_ode': ('ADVAN1 TRANS2', ['CL = THETA(1)*EXP(ETA(1))', 'V = THETA(2)*EXP(ETA(2))', 'S1 = V'],
                                False, ['V = V/WGT', 'CONC = F*V', 'Y = CONC + CONC*EPS(1)']),
 }
 # quick tier visits these first (small models + the generated ones), the rest in seeded order within the budget
 PRIORITY = ['minimal.mod', 'pheno_pd.mod', 'models/mox2.mod', 'models/pheno5.mod', 'gen:eta_forms', 'gen:logit_shared',
-            'gen:reassign_after_ode',
+            'gen:reassign_after_ode', 'gen:alias_chain',
             'pheno_real.mod', 'example:pheno_linear']
 _MODELS = {}
 
